@@ -50,6 +50,7 @@ type lockAnalysis struct {
 	accesses []accessFact
 	edges    map[string]edgeFact
 	blocking []string
+	leaks    []string
 	// call graph
 	funcs      map[string]*fnInfo      // key: qualified name or literal id
 	litOf      map[*ast.FuncLit]string // literal -> id
@@ -155,6 +156,7 @@ type walker struct {
 	section    int
 	private    map[types.Object]bool // locals that hold a freshly built, not yet shared struct
 	reassigned map[types.Object]bool
+	deferred   map[string]bool // lock classes with a deferred unlock in this function
 }
 
 func copyHeld(h []heldLock) []heldLock { return append([]heldLock{}, h...) }
@@ -242,17 +244,30 @@ func (w *walker) stmt(s ast.Stmt) {
 		for _, r := range x.Results {
 			w.expr(r, false)
 		}
+		w.checkLeak(x)
 	case *ast.DeferStmt:
 		// defer x.Unlock(): the lock stays held to the end of the function; other deferred calls are
 		// analysed as calls made at this point (conservative for lock order: they run with at least
 		// the locks that are never released)
 		if sel, ok := x.Call.Fun.(*ast.SelectorExpr); ok && (sel.Sel.Name == "Unlock" || sel.Sel.Name == "RUnlock") {
+			isMu := false
 			if tv, ok := w.p.TypesInfo.Types[sel.X]; ok {
-				if m, _ := isMutexType(tv.Type); m {
-					return
+				isMu, _ = isMutexType(tv.Type)
+			}
+			if !isMu {
+				if _, ok := sel.X.(*ast.Ident); ok && w.isEmbeddedMutexCall(sel) {
+					isMu = true
 				}
 			}
-			if _, ok := sel.X.(*ast.Ident); ok && w.isEmbeddedMutexCall(sel) {
+			if isMu {
+				class := w.la.lockClass(w.p, sel.X)
+				if a, ok := w.la.lockAlias[class]; ok {
+					class = a
+				}
+				if w.deferred == nil {
+					w.deferred = map[string]bool{}
+				}
+				w.deferred[class] = true
 				return
 			}
 		}
@@ -327,6 +342,15 @@ func (w *walker) stmt(s ast.Stmt) {
 			w.expr(e, false)
 		}
 		w.stmts(x.Body)
+	}
+}
+
+// checkLeak: returning with a lock still held that no deferred unlock will release.
+func (w *walker) checkLeak(at ast.Node) {
+	for _, h := range w.held {
+		if !w.deferred[h.class] {
+			w.la.leaks = append(w.la.leaks, fmt.Sprintf("%s: %s returns with %s held", w.la.where(w.p, at), w.fnName, h.class))
+		}
 	}
 }
 
@@ -1038,6 +1062,9 @@ func (la *lockAnalysis) run() {
 				fn.all = map[string]bool{}
 				w := &walker{la: la, p: p, fn: fn, fnName: id, private: map[types.Object]bool{}, reassigned: map[types.Object]bool{}}
 				w.stmts(fd.Body.List)
+				if !terminates(fd.Body) {
+					w.checkLeak(fd.Body)
+				}
 			}
 		}
 	}
@@ -1176,6 +1203,17 @@ func genLockFacts() {
 		l.p("  %s%s", sep, leanStr(b))
 	}
 	l.p("]")
+	sort.Strings(la.leaks)
+	l.p("/-- function exits that leave a lock held with no deferred unlock -/")
+	l.p("def lockLeaks : List String := [")
+	for i, b := range la.leaks {
+		sep := ","
+		if i == 0 {
+			sep = " "
+		}
+		l.p("  %s%s", sep, leanStr(b))
+	}
+	l.p("]")
 	l.p("end OutlineModel.Gen.LockFacts")
 	l.write()
 }
@@ -1222,7 +1260,7 @@ func (la *lockAnalysis) applyEntryHeld() {
 		}
 	}
 	eligible := func(id string) bool {
-		if (strings.HasPrefix(id, "func@") || strings.Contains(id, "$")) {
+		if strings.HasPrefix(id, "func@") || strings.Contains(id, "$") {
 			return false
 		}
 		name := id[strings.LastIndex(id, ".")+1:]
